@@ -58,6 +58,8 @@ type Builder struct {
 	Callbacks []*Callback
 	// NonBaseline counts calls that took a non-baseline form.
 	NonBaseline int
+	// Groups are the *jen.Group values handed to ...Func callbacks, in order.
+	Groups []*jen.Group
 	refs        map[int]jen.Code
 }
 
@@ -346,7 +348,7 @@ func (b *Builder) codeValue(n *Node) reflect.Value {
 func (b *Builder) callback(pt reflect.Type, cb *Callback, c *Call) reflect.Value {
 	switch {
 	case pt.NumIn() == 1 && pt.In(0) == groupType: // func(*Group)
-		return reflect.ValueOf(func(g *jen.Group) { cb.hit(); b.fillGroup(g, c.Items) })
+		return reflect.ValueOf(func(g *jen.Group) { cb.hit(); b.Groups = append(b.Groups, g); b.fillGroup(g, c.Items) })
 	case pt.NumIn() == 1 && pt.In(0) == stmtType: // Do(func(*Statement))
 		return reflect.ValueOf(func(s *jen.Statement) {
 			cb.hit()
